@@ -314,12 +314,23 @@ def run_cases(cases, workers=10, confirm=True):
     with ThreadPoolExecutor(max_workers=workers) as ex:
         res = list(ex.map(lambda c: c.run(), cases))
     if confirm:
+        def bad(c):
+            return c.diff() is not None or any(x in ("TIMEOUT",) or x.startswith("CRASHED") for x in (c.impl or [])[-1:])
+        confirmed = 0
         for c in cases:
-            tries = 0
-            while tries < 2 and (c.diff() is not None or any(x in ("TIMEOUT",) or x.startswith("CRASHED") for x in (c.impl or [])[-1:])):
+            if confirmed >= 3:
+                break           # three reproduced divergences: the verdict does not need more (a broken tree can make every case slow)
+            tries, prev = 0, None
+            while tries < 2 and bad(c):
+                sig = (c.diff(), tuple((c.impl or [])[-3:]))
+                if sig == prev:
+                    break       # reproduced identically when run alone: deterministic
+                prev = sig
                 tries += 1
                 RERUNS["n"] += 1
                 c.run(patient=True)
+            if bad(c):
+                confirmed += 1
     return res
 
 
